@@ -117,7 +117,7 @@ def run(res, tier, seed):
     allsc = [s for t in tiers for s in SCEN[t]]
     for k, (name, canc, tgt, order, olist, tgts) in enumerate(allsc):
         tf = os.path.join(vlib.BUILD, 'traces', 'c04-rand-%d-%d.ndjson' % (os.getpid(), k)); tfs.append(tf)
-        cmds.append([exe, 'random', str(n), str(seed * 7919 + k), tf, olist, tgts] + (['tso'] if name.startswith('T_') else []))
+        cmds.append([exe, 'random', str(n), str(seed * 7919 + k), tf, olist, tgts] + (['tso'] if name.startswith('T_') else ['bindG'] if name.startswith('R_') else []))
     for (sc, pp, tf) in zip(allsc, vlib.run_parallel(cmds, timeout=1500), tfs):
         if pp is None or pp.returncode != 0:
             raise vlib.HarnessFailure('random run failed: %s' % ((pp.stdout + pp.stderr)[-1500:] if pp else 'timeout'))
